@@ -1318,3 +1318,401 @@ def stage_oracle(ctx, env, G, only=None):
         if total and ok == 0:
             ctx.log("note: %s never succeeded (%s)" % (name, d))
     return stats
+
+
+# ====================================================================== stage 3: canonicity and idempotence
+NORMALISERS = {
+    # label: (conversion expression, type, generator ops, rearrangement strength)
+    "data.nat.norm_full": (["cls", "data.nat.norm_full"], "nat", "+++***S"),
+    "data.integer.simp_full": (["cls", "data.integer.simp_full"], "int", "+++***-n^"),
+    "data.integer.int_norm_conv": (["cls", "data.integer.int_norm_conv"], "int", "+++***-n^"),
+    "data.real.real_norm_conv": (["cls", "data.real.real_norm_conv"], "real", "+++***-n^/"),
+}
+PROP_NORMALISERS = {
+    # label: (conversion expression, connective, member kind)
+    "logic.logic.conj_norm": (["cls", "logic.logic.conj_norm"], "and", "formula"),
+    "logic.logic.disj_norm": (["cls", "logic.logic.disj_norm"], "or", "formula"),
+    "data.proplogic.norm_full": (["cls", "data.proplogic.norm_full"], "both", "literal"),
+    "data.proplogic.sort_conj": (["cls", "data.proplogic.sort_conj"], "and", "literal"),
+    "data.proplogic.sort_disj": (["cls", "data.proplogic.sort_disj"], "or", "literal"),
+}
+
+
+def canon_pair(env, ctx, label, ce, t1, t2, how):
+    """Both terms through the normaliser; identical rhs demanded; rhs is a fixed point."""
+    o1 = judge(env, ctx, label, ce, t1)
+    o2 = judge(env, ctx, label, ce, t2)
+    ctx.case(("canon", label, str(tj(t1)), str(tj(t2))), nontrivial=(t1 != t2))
+    if o1.kind != "ok" or o2.kind != "ok":
+        ctx.count("canon:%s:%s" % (label.split(".")[-1], "not-ok"))
+        if o1.kind.startswith("own-error") or o2.kind.startswith("own-error"):
+            # a normaliser that refuses a term of its domain cannot decide the equality
+            ctx.violation("%s:refuses-domain-term" % label, "%s fails on %s / %s: %s %s" % (label, t1, t2, o1.kind, o2.kind),
+                          {"kind": "canon", "label": label, "ce": ce, "t1": tj(t1), "t2": tj(t2)})
+        return None
+    if o1.rhs != o2.rhs:
+        ctx.count("canon:%s:DIFFERENT" % label.split(".")[-1])
+        ctx.violation("%s:noncanonical" % label,
+                      "%s gives different normal forms for %s: %s  vs  %s  (inputs %s | %s)" % (label, how, o1.rhs, o2.rhs, t1, t2),
+                      {"kind": "canon", "label": label, "ce": ce, "t1": tj(t1), "t2": tj(t2)})
+        return False
+    o3 = judge(env, ctx, label, ce, o1.rhs)
+    if o3.kind == "ok" and o3.rhs != o1.rhs:
+        ctx.count("canon:%s:NOT-IDEMPOTENT" % label.split(".")[-1])
+        ctx.violation("%s:not-idempotent" % label, "%s: normal form %s of %s is normalised further to %s" % (label, o1.rhs, t1, o3.rhs),
+                      {"kind": "idem", "label": label, "ce": ce, "t1": tj(t1)})
+        return False
+    ctx.count("canon:%s:same" % label.split(".")[-1])
+    return True
+
+
+def stage_canon(ctx, env, only=None):
+    T = env.term
+    n = ctx.scale(60, 1200)
+    for label, (ce, ty, ops) in NORMALISERS.items():
+        if only and label not in only:
+            continue
+        rng = ctx.rng("canon/" + label)
+        for _ in range(n):
+            a = gen_arith(rng, ty, rng.randint(1, 4), ops=ops, atoms=(ty != "int"))
+            b = rearrange(rng, a, ty, p=rng.choice([0.3, 0.6, 0.9]))
+            t1, t2 = to_term(env, a, ty), to_term(env, b, ty)
+            ok = canon_pair(env, ctx, label, ce, t1, t2, "rearrangements of one polynomial")
+            if ok and label == "data.nat.norm_full":
+                macro_pair(env, ctx, "nat_norm", t1, t2)
+            if ok and label == "data.real.real_norm_conv":
+                macro_pair(env, ctx, "real_norm", t1, t2)
+    for label, (ce, op, kind) in PROP_NORMALISERS.items():
+        if only and label not in only:
+            continue
+        rng = ctx.rng("canon/" + label)
+        for _ in range(n):
+            o = op if op != "both" else rng.choice(["and", "or"])
+            k = rng.randint(1, 5)
+            if kind == "literal":
+                ms = [gen_literal(rng, 0.0) for _ in range(k)]
+            else:
+                inner = ("not", "or", "imp") if o == "and" else ("not", "and", "imp")
+                ms = [gen_prop(rng, rng.randint(0, 2), ops=inner, consts=0.1) for _ in range(k)]
+            t1 = to_prop(env, build_assoc(rng, o, shuffle_members(rng, ms)))
+            t2 = to_prop(env, build_assoc(rng, o, shuffle_members(rng, ms)))
+            canon_pair(env, ctx, label, ce, t1, t2, "the same member set")
+
+
+def macro_pair(env, ctx, macro, t1, t2):
+    """The macro that decides equalities with the normaliser accepts the pair and its proof checks."""
+    goal = env.term.Eq(t1, t2)
+    replay = {"kind": "macro", "macro": macro, "t1": tj(t1), "t2": tj(t2)}
+    try:
+        with time_limit(60):
+            m = env.theory.get_macro(macro)
+            if not m.can_eval(goal):
+                ctx.violation("%s-macro:rejects-equal-polynomials" % macro, "%s.can_eval is False on %s" % (macro, goal), replay)
+                return
+            pt = env.ProofTerm(macro, goal, [])
+            th = env.theory.check_proof(pt.export(), env.report.ProofReport(), check_level=0)
+    except Timeout:
+        return
+    except Exception as e:  # noqa
+        ctx.violation("%s-macro:fails" % macro, "%s on %s raised %s: %s" % (macro, goal, type(e).__name__, str(e)[:200]), replay)
+        return
+    if th.prop != goal or th.hyps:
+        ctx.violation("%s-macro:wrong-sequent" % macro, "%s on %s proved %s" % (macro, goal, th), replay)
+    ctx.count("macro:%s:ok" % macro)
+
+
+# ====================================================================== stage 4: correspondence with the Lean model
+def tree_of_prop(env, t, op, ids):
+    is_op = (lambda u: u.is_conj()) if op == "and" else (lambda u: u.is_disj())
+    if is_op(t):
+        return ["n", tree_of_prop(env, t.arg1, op, ids), tree_of_prop(env, t.arg, op, ids)]
+    return ids[t]
+
+
+def members_of(t, op):
+    is_op = (lambda u: u.is_conj()) if op == "and" else (lambda u: u.is_disj())
+    if is_op(t):
+        return members_of(t.arg1, op) + members_of(t.arg, op)
+    return [t]
+
+
+def stage_corr_acnorm(ctx, env):
+    """conj_norm / disj_norm against `acNorm`: members are numbered by their rank under
+    `term_ord.fast_compare` (the order the model takes as given)."""
+    rng = ctx.rng("corr/acnorm")
+    n = ctx.scale(150, 3000)
+    cases, lines = [], []
+    for _ in range(n):
+        op = rng.choice(["and", "or"])
+        inner = ("not", "or", "imp") if op == "and" else ("not", "and", "imp")
+        ms = [gen_prop(rng, rng.randint(0, 2), ops=inner, consts=0.15) for _ in range(rng.randint(1, 6))]
+        t = to_prop(env, build_assoc(rng, op, shuffle_members(rng, ms)))
+        mem = members_of(t, op)
+        ranked = env.term_ord.sorted_terms(mem)
+        ids = {m: i for i, m in enumerate(ranked)}
+        cv = (env.logic.conj_norm if op == "and" else env.logic.disj_norm)()
+        try:
+            with time_limit(20):
+                rhs = cv.get_proof_term(t).prop.rhs
+            impl = sexp.dumps(tree_of_prop(env, rhs, op, ids))
+        except Timeout:
+            continue
+        except Exception as e:  # noqa
+            impl = "raise:" + type(e).__name__
+        cases.append((op, t, impl))
+        lines.append(sexp.dumps(["acnorm", tree_of_prop(env, t, op, ids)]))
+    out = ctx.lean_driver(EXE, lines) if lines else []
+    if out is None:
+        ctx.broken("correspondence:c10:driver", "model driver unavailable")
+        return
+    nd = 0
+    for (op, t, impl), m in zip(cases, out):
+        ctx.case(("acnorm", op, str(tj(t))), nontrivial=t.is_conj() or t.is_disj())
+        ctx.count("corr:acnorm:" + ("agree" if impl == m else "DISAGREE"))
+        if impl != m:
+            nd += 1
+            if nd <= 3:
+                ctx.broken("correspondence:c10:acnorm", "%s_norm on %s: impl=%s model=%s" % (op, t, impl, m))
+                ctx.coverage["disagreements_checked"] += 1
+
+
+class TermCodec:
+    """holpy terms <-> the model's named terms; atoms are numbered per (kind, name, type)."""
+
+    def __init__(self, env):
+        self.env = env
+        self.ids = {}
+        self.rev = []
+
+    def atom(self, t):
+        key = (t.ty, t.name, str(t.T))
+        if key not in self.ids:
+            self.ids[key] = len(self.rev)
+            self.rev.append(t)
+        return self.ids[key]
+
+    def enc(self, t):
+        if t.is_comb():
+            return ["c", self.enc(t.fun), self.enc(t.arg)]
+        if t.is_abs():
+            v, body = t.dest_abs()
+            return ["l", self.atom(v), self.enc(body)]
+        if t.is_bound():
+            raise ValueError("open term")
+        return ["a", self.atom(t)]
+
+    def pat(self, t, pv):
+        if t.is_svar():
+            if t.name not in pv:
+                pv[t.name] = len(pv)
+            return ["v", pv[t.name]]
+        if t.is_comb():
+            return ["c", self.pat(t.fun, pv), self.pat(t.arg, pv)]
+        if t.is_abs() or t.is_bound():
+            raise ValueError("binder in rule")
+        return ["a", self.atom(t)]
+
+    def dec(self, s):
+        T = self.env.term
+        if s[0] == "a":
+            return self.rev[int(s[1])]
+        if s[0] == "c":
+            return T.Comb(self.dec(s[1]), self.dec(s[2]))
+        if s[0] == "l":
+            return T.Lambda(self.rev[int(s[1])], self.dec(s[2]))
+        raise ValueError(s)
+
+
+MODEL_RULES = [("nat_plus_def_1", False), ("add_0_right", False), ("nat_plus_def_2", False), ("mult_1_left", False),
+               ("add_comm", False), ("add_1_right", True), ("double_neg", False), ("distrib_l", False),
+               ("mult_comm", False), ("add_assoc", True)]
+ERRMAP = {"ConvException": "conv", "InvalidDerivationException": "invalid", "AssertionError": "assertion"}
+
+
+def gen_model_ce(rng, depth, top=None, noloop=False):
+    """Conversion expressions inside the fragment the Lean model interprets."""
+    rules = [r for r in MODEL_RULES if not (noloop and r[0] in ("add_comm", "mult_comm"))]
+    unary = ["abs", "try", "comb1", "arg", "fun", "arg1", "binop", "repeat", "sub", "bottom", "topsweep"]
+    k = top
+    if k is None:
+        if depth <= 0 or rng.random() < 0.35:
+            r = rng.random()
+            if r < 0.08:
+                return ["all"]
+            if r < 0.14:
+                return ["no"]
+            b = ["rule"] + list(rng.choice(rules))
+            r = rng.random()
+            return b if r < 0.4 else ["try", b] if r < 0.7 else ["topsweep", b] if r < 0.85 else ["bottom", b]
+        k = rng.choice(unary + ["comb", "then", "else", "every", "top"])
+    sub = lambda: gen_model_ce(rng, depth - 1, noloop=noloop or k in ("repeat", "top", "bottom"))  # noqa
+    if k in unary:
+        return [k, sub()]
+    if k in ("comb", "then", "else"):
+        return [k, sub(), sub()]
+    return [k] + [sub() for _ in range(rng.randint(0 if k == "every" else 1, 3))]
+
+
+def model_ce_to_impl(ce):
+    k = ce[0]
+    if k == "rule":
+        return ["rewr", ce[1], ce[2], [], "sorry"]
+    if k in ("all", "no"):
+        return ce
+    return [{"topsweep": "top_sweep"}.get(k, k)] + [model_ce_to_impl(c) for c in ce[1:]]
+
+
+def model_ce_to_sexp(env, codec, ce):
+    k = ce[0]
+    if k == "rule":
+        th = env.theory.get_theorem(ce[1])
+        l, r = th.prop.lhs, th.prop.rhs
+        if ce[2]:
+            l, r = r, l
+        pv = {}
+        return ["rewr", codec.pat(l, pv), codec.pat(r, pv)]
+    if k in ("all", "no"):
+        return k
+    return [k] + [model_ce_to_sexp(env, codec, c) for c in ce[1:]]
+
+
+def stage_corr_conv(ctx, env):
+    """The combinators over first-order rewrite rules against `interp`."""
+    rng = ctx.rng("corr/conv")
+    n = ctx.scale(250, 5000)
+    cases, lines = [], []
+    tops = ["then", "else", "try", "comb", "comb1", "arg", "fun", "arg1", "binop", "abs", "sub", "repeat", "bottom", "top",
+            "topsweep", "every", None, None]
+    for _ in range(n):
+        top = rng.choice(tops)
+        ce = gen_model_ce(rng, rng.randint(1, 3), top=top)
+        g = BGen(env, rng)
+        t = g.any(rng.randint(1, 4)) if rng.random() < 0.7 else env.term.Lambda(g.bvar(), g.N(2))
+        codec = TermCodec(env)
+        try:
+            line = sexp.dumps(["conv", 400, model_ce_to_sexp(env, codec, ce), codec.enc(t)])
+        except ValueError:
+            continue
+        hyps = set()
+        try:
+            cv = build_cv(env, model_ce_to_impl(ce), hyps)
+            with time_limit(20):
+                pt = cv.get_proof_term(t)
+            impl = ("ok", pt.prop.lhs, pt.prop.rhs)
+        except Timeout:
+            continue
+        except RecursionError:
+            continue
+        except Exception as e:  # noqa
+            impl = ("err", ERRMAP.get(type(e).__name__, type(e).__name__))
+        cases.append((ce, t, impl, codec))
+        lines.append(line)
+    out = ctx.lean_driver(EXE, lines) if lines else []
+    if out is None:
+        ctx.broken("correspondence:c10:driver", "model driver unavailable")
+        return
+    nd = 0
+    for (ce, t, impl, codec), m in zip(cases, out):
+        ms = sexp.loads(m)
+        if ms == "bad-op":
+            model = ("bad-op",)
+        elif ms[0] == "ok":
+            model = ("ok", codec.dec(ms[1]), codec.dec(ms[2]))
+        else:
+            model = ("err", ms[1])
+        ctx.case(("conv-corr", json.dumps(ce), str(tj(t))), nontrivial=(impl[0] == "ok" and impl[1] != impl[2]))
+        agree = impl == model
+        ctx.count("corr:conv:%s:%s" % (ce[0], "agree" if agree else "DISAGREE"))
+        ctx.count("corr:conv:outcome:%s" % (impl[0] if impl[0] == "ok" else "err-" + impl[1]))
+        if not agree:
+            nd += 1
+            if nd <= 3:
+                ctx.broken("correspondence:c10:conv", "%s on %s: impl=%s model=%s" % (json.dumps(ce), t, [str(x) for x in impl], [str(x) for x in model]))
+                ctx.coverage["disagreements_checked"] += 1
+                # failing-input search: the property oracle on exactly this input
+                judge(env, ctx, "logic.conv.%s" % ce[0], model_ce_to_impl(ce), t)
+
+
+# ====================================================================== entry points
+def run(ctx):
+    ctx.coverage["rule"] = (
+        "oracle: per Conv subclass (found by introspection of logic/conv.py, data/nat.py, data/integer.py, data/real.py, "
+        "data/proplogic.py, logic/logic.py) terms of the class's documented domain from a seeded generator: random arithmetic over "
+        "nat/int/real (variables, numerals, Suc, +, *, -, unary minus, numeral powers, division by constants), propositional "
+        "formulas over 4 atoms + P n, terms with lambda/forall/exists and beta/eta redexes for the combinators (random nestings of "
+        "the combinators over 19 base conversions incl. conditional rewrites); non-trivial = the conversion succeeded and changed "
+        "the term; distinct by (conversion expression, term). canonicity: pairs (t, rearrangement of t) by commutativity, "
+        "associativity, distribution, unit laws, numeral splitting, doubling, Suc/+1, minus unfolding, duplicated/permuted members.")
+    ok = ctx.lean_props(["Holpy.C10.Props"], exes=[EXE])
+    if ctx.tier == "thorough" and ok:
+        ctx.lean_check_modules(["Holpy.C10.Props"])
+    ctx.coverage["trusted_base"] += [
+        "harness/props/c10.py: generators, term codec, ranking of members/atoms by the implementation's own term_ord.fast_compare",
+        "kernel.theory.check_proof is the judge of 'checker-accepted' (check_level=0: every macro with an expansion is expanded)",
+        "level-0 macros (nat_eval, int_eval, real_eval, real_norm, int_const_ineq, real_const_eq ...) are trusted by the checker (C05)"]
+    ctx.assumptions += [
+        "the atom/member order handed to the model is a strict total order (C03 cmp_total); the model takes it as Nat order on ranks",
+        "hypotheses of conversions are judged on the implementation only (the model's equations carry no hypotheses)",
+        "nat subtraction, nat powers and function applications are opaque atoms of the nat normaliser; real powers with "
+        "non-natural exponents are outside the canonicity check"]
+    env = Env(ctx)
+    G = make_gens(env)
+    replay_corpus(ctx, env)
+    stage_oracle(ctx, env, G)
+    ctx.log("oracle done: %d cases" % ctx.coverage["evaluations"])
+    stage_canon(ctx, env)
+    ctx.log("canonicity done")
+    stage_corr_acnorm(ctx, env)
+    stage_corr_conv(ctx, env)
+    for s in (stage_corr_natnorm,):
+        s(ctx, env)
+    ctx.log("correspondence done")
+
+
+def stage_corr_natnorm(ctx, env):
+    pass
+
+
+def replay_one(ctx, env, r):
+    k = r.get("kind")
+    if k == "conv":
+        judge(env, ctx, r["label"], r["ce"], jt(env, r["term"]), r.get("in_domain", True), limit=60)
+    elif k in ("canon", "idem"):
+        t1 = jt(env, r["t1"])
+        t2 = jt(env, r["t2"]) if "t2" in r else t1
+        canon_pair(env, ctx, r["label"], r["ce"], t1, t2, "replayed pair")
+    elif k == "macro":
+        macro_pair(env, ctx, r["macro"], jt(env, r["t1"]), jt(env, r["t2"]))
+
+
+def replay_corpus(ctx, env):
+    p = os.path.join(ctx.verif, "corpus", "c10.json")
+    if os.path.exists(p):
+        with open(p) as f:
+            for r in json.load(f):
+                replay_one(ctx, env, r)
+                ctx.count("corpus")
+
+
+def replay(ctx, rp):
+    """Re-run one recorded failing input on the implementation; True if it still fails."""
+    env = Env(ctx)
+    replay_one(ctx, env, rp["replay"])
+    for v in ctx.violations:
+        print("still fails:", v[1])
+    for k in ctx.known_hits:
+        print("still fails (known finding):", k)
+    return bool(ctx.violations) or bool(ctx.known_hits)
+
+
+MANIFEST = {
+    "text": "Lean theorems about executable models of the conversion combinators (left side = input for every nesting), of "
+            "conj_norm/disj_norm (canonical, idempotent, equivalent) and of the nat polynomial normaliser; models tied to "
+            "logic/conv.py, logic/logic.py, data/nat.py by differential runs; every Conv subclass of the six modules judged on "
+            "generated terms of its domain by the real proof checker (lhs exact, hypotheses, eval agreement), and every normaliser on "
+            "rearranged pairs for canonicity and idempotence.",
+    "note": "Trusted: Lean kernel + propext/Classical.choice/Quot.sound, the generators, check_proof as the acceptance judge, "
+            "term_ord.fast_compare as the order. Integer and real normalisers and proplogic.norm_full are covered by the oracle only (not modelled).",
+    "design_ref": "DESIGN.md 4/C10",
+}
+FINDINGS = []
